@@ -576,11 +576,11 @@ Lemma WI_take_frags b : WI b -> WI (fst (take_trailing_fragments b)).
 Proof.
   intros [H|H].
   - left. apply take_trailing_fragments_Inv, H.
-  - right. destruct H as (HI0 & Hwl & Hehw). unfold take_trailing_fragments.
-    destruct (word_is_empty (wword b)) eqn:Ewe; cbn [fst].
-    + unfold Invz. prj. split; [apply Inv0z_set_word, HI0|]. split; [|constructor].
-      rewrite Hwl. apply word_is_empty_vw, Ewe.
-    + unfold Invz. auto.
+  - right. destruct H as (HI0 & Hwl & Hehw). rewrite ttf_eq. cbn [fst].
+    unfold Invz. prj. split; [apply Inv0z_set_word, HI0|]. split.
+    + rewrite tfr_fst_vw. exact Hwl.
+    + unfold elems_have_width in *. rewrite (tfr_app (wword b)) in Hehw.
+      apply Forall_app in Hehw. apply Hehw.
 Qed.
 
 Lemma WI_add_frag b n : WI b -> WI (wb_add_element b (Frag n)).
